@@ -3,10 +3,11 @@ SPEC = {
     'theorems': ['EV.Mempool.C09_inv', 'EV.Mempool.C09_truthful', 'EV.Mempool.C09_recovers',
                  'EV.Mempool.C09_height_guard', 'EV.Mempool.C09_loop',
                  'EV.Mempool.IndexError.C09_counterexample_index_error'],
-    'suites': ['mempool', 'system'],
+    'suites': ['mempool', 'system', 'index'],
     'entry': {'mempool': 'run_race', 'system': 'run'},
-    # of what the shared system suite finds, C09 is about the mempool task staying alive and its view
-    'claims': {'violation_tags': ['task_died', 'mempool_view']},
+    # of what the shared suites find, C09 is about the mempool task staying alive, its view, and
+    # EnvSound's "DB.lookup_utxos is truthful" (also after back-outs: tx numbers are reused)
+    'claims': {'violation_tags': ['task_died', 'mempool_view', 'lookup'], 'disagreement_tags': ['lookup']},
     'assumptions': [
         'EnvSound: a raw transaction delivered for hash h is the transaction with id h (or None, at any time, for '
         'any hash); lookup_utxos answers None or the true (hashX, value) of that output for every prevout of every '
